@@ -137,6 +137,22 @@ def run_case(c):
     k, i = c["kind"], c["inputs"]
     if k == "canary":
         return {"ok": False}
+    if k == "stale":
+        # one API object: a good thermostat control, then one whose state reply is empty -> must raise, never act on remembered state
+        rnd = random.Random(i["seed"])
+        for n in range(i["n"]):
+            irs = gen_irset(rnd, density=1.0, toggle=False, sep=False)
+            remote = SwitcherBreezeRemote(irs)
+            a = n_api.make(2, bytes(3), b"\x00", [])
+            for step, R2 in enumerate((state_reply(rnd), b"", state_reply(rnd), bytes(5))):
+                a._reader = n_api.FakeReader([bytes(44), R2, b"ok", b"ok"])
+                a._writer = n_api.FakeWriter()
+                k2, v = n_api.call(a, "control_breeze_device", [remote, DeviceState.ON, None, 0, None, None, False], 1700000000)
+                bad_reply = len(R2) < 92
+                if bad_reply and not (k2 == "exc" and isinstance(v, RuntimeError) and len(a._writer.log) == 2):
+                    return {"ok": False, "evaluations": 4 * n + step + 1, "detail": f"call #{step + 1} on the same API object with an unreadable state reply "
+                            f"({len(R2)} bytes): {'returned' if k2 == 'ret' else exc_name(v)}, {len(a._writer.log)} frames"}
+        return {"ok": True, "evaluations": 4 * i["n"]}
     if k == "repeats":
         rnd = random.Random(i["seed"])
         for n in range(i["n"]):
